@@ -21,7 +21,9 @@ Definition find_reg (rs : list reg) (rid : nat) : option reg := find (fun r => r
 
 (* what a registration provides, read off its form (specification level):
    (type, name, group, output index) *)
-Definition provides (r : reg) : list (ty * nat * grp * nat) :=
+(* the monitors' bookkeeping marks an output whose identity was removed from the collection by this type *)
+Definition T_GONE : ty := 61.
+Definition provides_all (r : reg) : list (ty * nat * grp * nat) :=
   match r_form r with
   | FResult _ _ fs _ => map (fun '(k, f) => (f_ty f, f_name f, f_group f, k)) (combine (seq 0 (length fs)) fs)
   | FCtor _ _ (t0 :: t1 :: ts) _ =>
@@ -33,6 +35,8 @@ Definition provides (r : reg) : list (ty * nat * grp * nat) :=
       | ifs => map (fun i => (i, r_name r, r_group r, 0)) ifs
       end
   end.
+Definition provides (r : reg) : list (ty * nat * grp * nat) :=
+  filter (fun '(t, _, _, _) => negb (t =? T_GONE)) (provides_all r).
 Definition provides_b (r : reg) (t : ty) (n : nat) (g : grp) (out : nat) : bool :=
   existsb (fun '(t', n', g', o') => (t =? t') && (n =? n') && (g =? g') && (out =? o')) (provides r).
 
@@ -50,9 +54,12 @@ Definition produced_for (rs : list reg) (i : inst) (t : ty) (n : nat) (g : grp) 
 (* lenient: some constructor failed in this step (an optional dependency whose construction failed stays zero) *)
 (* a group is handed out complete and in registration order *)
 Definition list_eqb_n := list_eqb Nat.eqb.
+Definition pair_eqb (a b : nat * nat) : bool := (fst a =? fst b) && (snd a =? snd b).
+(* one entry per member: a result object may contribute several fields to one group, in field order *)
 Definition group_in_order (rs : list reg) (t : ty) (g : grp) (l : list inst) : bool :=
-  list_eqb_n (flat_map (fun i => match i with IObj rid _ _ _ => [rid] | IVoid => [] end) l)
-             (map r_id (filter (fun r => existsb (fun '(t', _, g', _) => (t' =? t) && (g' =? g)) (provides r)) rs)).
+  list_eqb pair_eqb
+    (flat_map (fun i => match i with IObj rid _ out _ => [(rid, out)] | IVoid => [] end) l)
+    (flat_map (fun r => flat_map (fun '(t', _, g', k) => if (t' =? t) && (g' =? g) then [(r_id r, k)] else []) (provides r)) rs).
 Definition arg_ok (rs : list reg) (lenient : bool) (p : param) (a : aval) : bool :=
   match p, a with
   | PSkip, AZero => true
@@ -119,7 +126,6 @@ Record mstate := mkMS {
 }.
 Definition ms_init : mstate := mkMS [] false 0 [] [] [] [] [] [] [] [] [].
 
-Definition pair_eqb (a b : nat * nat) : bool := (fst a =? fst b) && (snd a =? snd b).
 Definition mem_pair (x : nat * nat) (l : list (nat * nat)) : bool := existsb (pair_eqb x) l.
 Definition mem_inst (i : inst) (l : list inst) : bool := existsb (inst_eqb i) l.
 
@@ -189,11 +195,26 @@ Definition single_output (r : reg) : bool :=
   match r_form r with FInst _ | FCtor _ _ [_] _ => true | _ => false end.
 Definition with_as (r : reg) (ifs : list ty) : reg :=
   mkReg (r_id r) (r_life r) (r_form r) (r_name r) (r_group r) ifs (r_script r) (r_dyn r) (r_cfail r) (r_bad r).
+Definition with_form (r : reg) (f : form) : reg :=
+  mkReg (r_id r) (r_life r) f (r_name r) (r_group r) (r_as r) (r_script r) (r_dyn r) (r_cfail r) (r_bad r).
+Definition tomb_form (f : form) (k : nat) : form :=
+  match f with
+  | FResult io ps fs e => FResult io ps (upd_nth fs k (fun _ => mkField T_GONE 0 0)) e
+  | FCtor io ps rets e => FCtor io ps (upd_nth rets k (fun _ => T_GONE)) e
+  | f => f
+  end.
 Definition remove_identity (rs : list reg) (t : ty) (n : nat) : list reg :=
   flat_map (fun rg =>
-              if provides_b rg t n 0 0 && (length (provides rg) =? 1) then []
+              if provides_b rg t n 0 0 && (length (provides rg) =? 1) && (length (provides_all rg) =? 1) then []
               else if single_output rg && (2 <=? length (r_as rg)) && existsb (Nat.eqb t) (r_as rg) && (r_name rg =? n) && (r_group rg =? 0)
                    then [with_as rg (filter (fun i => negb (i =? t)) (r_as rg))]
+                   else if negb (single_output rg) then
+                     (* one identity of a multi-output registration: the others stay; the constructor still runs for them *)
+                     match find (fun '(t', n', g', _) => (t' =? t) && (n' =? n) && (g' =? 0)) (provides rg) with
+                     | Some (_, _, _, k) =>
+                         if length (provides rg) =? 1 then [] else [with_form rg (tomb_form (r_form rg) k)]
+                     | None => [rg]
+                     end
                    else [rg]) rs.
 Definition ms_step (ms : mstate) (o : op) (s : list event * result) : mstate :=
   let all_regs := ms_active ms in
@@ -384,13 +405,12 @@ Definition step_C03 (ms : mstate) (o : op) (s : list event * result) : bool :=
 Definition holds_C03 (ops : list op) (tr : trace) : bool := mon_fold step_C03 ms_init ops tr.
 
 (* ================================================================ C04 *)
-Definition step_C04 (ms : mstate) (o : op) (s : list event * result) : bool :=
+Definition step_C04_produced (ms : mstate) (o : op) (s : list event * result) : bool :=
   let p := match o, snd s with OBuild _, RCount p => Some p | OBuild _, _ => Some (ms_nprov ms) | _, _ => op_prov o end in
   match p with
   | None => true
   | Some p => step_produced (match o with OBuild _ => ms_active ms | _ => regs_for ms p end) o s
   end.
-Definition holds_C04 (ops : list op) (tr : trace) : bool := mon_fold step_C04 ms_init ops tr.
 
 (* ================================================================ the dependency relation, read off the registrations *)
 Definition dep_matches (d : dep) (r' : reg) : bool :=
@@ -492,6 +512,28 @@ Definition holds_C07 (ops : list op) (tr : trace) : bool := mon_fold step_C07 ms
 (* ================================================================ C08 *)
 Definition is_ctor_failure (r : result) : bool :=
   match r with RErr (ECtorErr _) _ | RErr (ECtorPanic _) _ | RErr EValidation _ | RErr (EDisposal _) _ | RErr ECancelled _ => true | _ => false end.
+(* C04, resolvable half: an identity some registration provides is resolvable on a built provider - the answer
+   is a value, or the failure of a constructor that ran in this step, or the refusal of something closed *)
+Definition unexplained_failure (s : list event * result) : bool :=
+  match snd s with
+  | RErr ENotFound _ | RErr EValidation _ | RErr EOther _ =>
+      negb (existsb (fun e => match e with EvCtor _ _ _ OOk => false | EvCtor _ _ _ _ => true | _ => false end) (fst s))
+  | _ => false
+  end.
+Definition step_C04 (ms : mstate) (o : op) (s : list event * result) : bool :=
+  step_C04_produced ms o s &&
+  match o with
+  | OResolve p _ t n =>
+      negb (unexplained_failure s) ||
+      negb (existsb (fun r => existsb (fun '(t', n', g', _) => (t' =? t) && (n' =? n) && (g' =? 0)) (provides r)) (regs_for ms p))
+  | OResolveGroup p _ t g => (t =? T_NIL) || (g =? 0) || negb (unexplained_failure s)
+  | OBuild _ =>
+      let rs := ms_active ms in
+      ms_unsure ms || spec_cycle rs || spec_conflict rs || spec_missing rs || spec_faulty rs || negb (unexplained_failure s)
+  | _ => true
+  end.
+Definition holds_C04 (ops : list op) (tr : trace) : bool := mon_fold step_C04 ms_init ops tr.
+
 Definition step_C08 (ms : mstate) (o : op) (s : list event * result) : bool :=
   match o with
   | OBuild _ =>
